@@ -10,6 +10,7 @@ mod templ;
 mod admit;
 mod derive;
 mod hostloop;
+mod topic;
 
 use common::*;
 use std::path::{Path, PathBuf};
@@ -31,6 +32,7 @@ fn replay_file(comp: &str, path: &Path, out: &mut Out) {
         "admit" => admit::replay(&desc, &ops, out),
         "derive" => derive::replay(&desc, &ops, out),
         "hostloop" => hostloop::replay(&desc, &ops, out),
+        "topic" => topic::replay(&desc, &ops, out),
         _ => panic!("unknown component"),
     }
 }
@@ -50,6 +52,7 @@ fn main() {
             Some("AdmitTable") => admit::table_admit(),
             Some("DeriveTable") => derive::table_derive(),
             Some("HostLoopTable") => hostloop::table_hostloop(),
+            Some("TopicTable") => topic::table_topic(),
             _ => {
                 eprintln!("unknown table");
                 std::process::exit(2)
@@ -127,6 +130,7 @@ fn main() {
         "admit" => admit::run(&args, &mut out),
         "derive" => derive::run(&args, &mut out),
         "hostloop" => hostloop::run(&args, &mut out),
+        "topic" => topic::run(&args, &mut out),
         _ => {
             eprintln!("unknown component {}", comp);
             std::process::exit(2)
